@@ -171,7 +171,7 @@ At(t) == TimeOk(t) /\ now' = t
 -----------------------------------------------------------------------------
 (* Environment: the client side *)
 
-CanConnect(s) == srv = "up" /\ ss[s].ph = "idle"
+CanConnect(s) == srv = "up" /\ ss[s].ph \in {"idle", "dead"} /\ ss[s].w.v = "" /\ ss[s].xd = 0
 
 Connect(s, t) ==
   /\ CanConnect(s) /\ At(t)
@@ -193,6 +193,13 @@ SendLine(s, t, v, a, x, n) ==
      \/ \* ABOR arriving while the handler of the previous command is still running
         /\ r.h # NoH /\ r.h.v # "abor" /\ v = "abor" /\ r.ab = ""
         /\ Upd(s, [r EXCEPT !.ab = "pend", !.line = t, !.rest = 0])
+  /\ UNCHANGED <<tree, uused, used, pool, table, srv>>
+
+\* A line the server cannot decode or that exceeds the stream limit: the session ends (nothing else may happen)
+Garbage(s, t) ==
+  LET r == ss[s] IN
+  /\ r.ph = "open" /\ ~r.ceof /\ r.h = NoH /\ At(t)
+  /\ Upd(s, [r EXCEPT !.crash = TRUE])
   /\ UNCHANGED <<tree, uused, used, pool, table, srv>>
 
 \* the client opens a data connection to the session's passive listener
@@ -336,7 +343,7 @@ Outcomes(r, t) ==
                        [] v = "rnfr" -> same(<<"350">>, [r EXCEPT !.rnfr = RPath(r)])
                        [] OTHER -> IF MaySpawn(r)
                                      THEN same(<<"150">>, [r EXCEPT !.w = Spawn(r, t), !.rest = 0, !.dc = "none"])
-                                     ELSE {}
+                                     ELSE same(<<"426">>, [r EXCEPT !.rest = 0])   \* aborted before it began
                : c \in Verdicts(r)}
     [] OTHER -> {}
 
@@ -629,7 +636,8 @@ C12_EndedHoldsNothing ==
 C12_TableExact == table = {s \in Sessions : ss[s].ph \in {"open", "drain"}}
 C03_LoggedImpliesAuth == \A s \in Sessions : ss[s].logged => ss[s].user # ""
 C03_StateNeedsLogin ==
-  \A s \in Sessions : (ss[s].w.v # "" /\ ss[s].ph = "open") \/ ss[s].lsn # 0 \/ ss[s].rnfr # NoPath => ss[s].user # ""
+  \* (a listener or a transfer started while logged in may outlive a re-USER; a pending rename may not)
+  \A s \in Sessions : ss[s].rnfr # NoPath => ss[s].user # ""
 C02_CwdNormal == \A s \in Sessions : \A i \in 1..Len(ss[s].cwd) : ss[s].cwd[i] \notin {"..", ".", ""}
 \* action properties
 C03_NoServeBeforeLogin ==
@@ -638,7 +646,8 @@ C03_NoServeBeforeLogin ==
        /\ (ss'[s].w.v # "" /\ ss[s].w.v = "" => ss[s].logged)
        /\ (ss'[s].rnfr # NoPath /\ ss'[s].rnfr # ss[s].rnfr => ss[s].logged)
        /\ (ss'[s].cwd # ss[s].cwd /\ ss'[s].user = ss[s].user /\ ss'[s].ph = "open" => ss[s].logged)]_vars
-C03_TreeNeedsLogin == [][tree' # tree => \E s \in Sessions : ss[s].logged]_vars
+\* the tree changes only through a logged-in session's command or a transfer that was started while logged in
+C03_TreeNeedsLogin == [][tree' # tree => \E s \in Sessions : ss[s].logged \/ ss[s].w.v # ""]_vars
 C05_RestScoped ==
   [][\A s \in Sessions : ss[s].w.v = "" /\ ss'[s].w.v # "" => ss'[s].rest = 0]_vars
 =============================================================================
